@@ -766,7 +766,7 @@ def check_request_core(rep, rule, rule_kw=None):
 
 def _value_sources(f, cfg, ret, v):
     """For ``return x``: the expressions assigned to x that reach the return, with the conditions at the assignment."""
-    if not v.isidentifier():
+    if not v.isidentifier() or v == 'context':
         return [(v, cfg.conds_at_stmt(ret))]
     out = []
     for s in ast.walk(f):
@@ -845,7 +845,7 @@ def check_accessors(rep, rule, kinds=True):
                 continue
             found.append((n, c))
         if not found:
-            raise AnalysisError('%s no longer reads a signature accessor (role: %s)' % (fi.key, role))
+            rep.fail(rule, fkey(fi, 'accessor'), '%s no longer enumerates the callee\'s parameters (role: %s)' % (fi.qualname, role), mod, fi.node)
         for n, c in found:
             ok = c == 'all'
             rep.check(rule, fkey(fi, n), ok,
